@@ -314,7 +314,17 @@ pub fn sets(ctx: &Ctx) -> Vec<CaseSet> {
         "special-regions",
         ctx.size(60_000, 3_000_000),
         Box::new(move |rep, rng, _| {
-            let t = match rng.below(8) {
+            let mut break_out: Option<String> = None;
+            let t = match rng.below(9) {
+                8 => {
+                    // over-long significands (19-20 digits) in the lowest subnormal decades
+                    let d: String = (0..rng.range(18, 21)).map(|i| if i == 0 { (b'1' + rng.below(9) as u8) as char } else { (b'0' + rng.below(10) as u8) as char }).collect();
+                    match rng.below(3) {
+                        0 => format!("{}e-{}", d, rng.range(330, 346)),
+                        1 => format!("{}.{}e-{}", &d[..1], &d[1..], rng.range(312, 326)),
+                        _ => format!("0.{}{}", "0".repeat(rng.range(318, 325)), d),
+                    }
+                }
                 0 => {
                     // halfway cases around 2^53: integers 2^53 + small, with .5 fractions
                     let base = (1u64 << 53) + rng.below(64) as u64 - 32;
@@ -351,9 +361,24 @@ pub fn sets(ctx: &Ctx) -> Vec<CaseSet> {
                 }
                 3 => {
                     // huge / tiny exponents
-                    let e = *rng.pick::<&str>(&["400", "-400", "4000", "-4000", "2147483647", "2147483648", "-2147483648", "9999999999999", "-9999999999999", "99999999999999999999999", "-99999999999999999999999", "0000400"]);
-                    let m = *rng.pick::<&str>(&["1", "0", "0.0", "1.5", "123456789", "-1", "-0", "0.000001", "00"]);
-                    format!("{}e{}", m, e)
+                    if rng.chance(1, 3) {
+                        // written exponent close to the i32 limits combined with an implied
+                        // exponent in the same direction (many integer / fraction digits)
+                        let base: i64 = 2147483647 - rng.below(400) as i64;
+                        let (m, neg) = match rng.below(4) {
+                            0 => ("1".to_string() + &"0".repeat(rng.range(19, 40)), false),
+                            1 => ("0.".to_string() + &"0".repeat(rng.range(1, 40)) + "1", true),
+                            2 => ("123456789012345678901234567890".to_string(), false),
+                            _ => ("0.000001".to_string(), true),
+                        };
+                        break_out = Some(format!("{}e{}{}", m, if neg { "-" } else { "" }, base));
+                    }
+                    let e = *rng.pick::<&str>(&["400", "-400", "4000", "-4000", "2147483647", "-2147483647", "2147483640", "-2147483640", "2147483648", "-2147483648", "9999999999999", "-9999999999999", "99999999999999999999999", "-99999999999999999999999", "0000400"]);
+                    let m = *rng.pick::<&str>(&["1", "0", "0.0", "1.5", "123456789", "-1", "-0", "0.000001", "00", "100000000000000000000000", "0.01", "0.000000000000000000001"]);
+                    match break_out.take() {
+                        Some(t) => t,
+                        None => format!("{}e{}", m, e),
+                    }
                 }
                 4 => {
                     // many digits: more than 19 significant digits
